@@ -361,14 +361,17 @@ def roots(tier, seed):
     asets = [([["p2", "p4", "p3"], ["p1", "twopk", "p5"]], [0.0, 90.0]),
              ([["p2", "p4", "twopk", "p3"], ["p1", "p5", "p3", "q3"], ["p2", "p2", "p4", "p5"]], [0.0, 60.0, 120.0]),
              ([["p3", "p3", "p4"], ["q3", "p2", "tie"]], [22.5, 112.5]),
-             ([["p2", "p4", "p3"]], [7.0])]
+             ([["p2", "p4", "p3"]], [7.0]),
+             # azimuth sets that are NOT increasing (column order in the file must follow the object)
+             ([["p2", "p4", "p3"], ["p1", "twopk", "p5"]], [90.0, 0.0]),
+             ([["p2", "p4", "twopk", "p3"], ["p1", "p5", "p3", "q3"], ["p2", "p2", "p4", "p5"]], [120.0, 0.0, 60.0])]
     dq = 2
     if tier == "quick":
         out.append(dict(kind="trad", real=True, depth=2))
         for s in tsets[:4]:
             out.append(dict(kind="trad", grid="lin", F=7, shapes=s, depth=1 if len(s) == 4 else 2))
         out.append(dict(kind="azi", real=True, azimuths=[0.0, 45.0, 90.0], depth=1))
-        for sh, az in asets[:3]:
+        for sh, az in asets[:3] + asets[4:]:
             out.append(dict(kind="azi", grid="lin", F=7, shapes_by_az=sh, azimuths=az, depth=1))
         out.append(dict(kind="diffuse", real=True, depth=2))
         for vals in A.all_curves(5, (1, 2, 3))[::9]:
@@ -378,7 +381,7 @@ def roots(tier, seed):
     for s in tsets:
         out.append(dict(kind="trad", grid="lin", F=7, shapes=s, depth=2))
         out.append(dict(kind="trad", grid="geo", F=7, shapes=s, depth=1))
-    for az in ([0.0, 45.0, 90.0], [0.0, 180.0], [10.0]):
+    for az in ([0.0, 45.0, 90.0], [0.0, 180.0], [10.0], [135.0, 45.0, 90.0, 0.0]):
         out.append(dict(kind="azi", real=True, azimuths=az, depth=2))
     for sh, az in asets:
         out.append(dict(kind="azi", grid="lin", F=7, shapes_by_az=sh, azimuths=az, depth=2))
